@@ -34,12 +34,12 @@ import "github.com/insomniacslk/dhcp/dhcpv4"
 //@   ensures[returns-on-read-error] result != nil
 //@   after `call:ReadFrom` let S0 = spawned()
 //@   after `call:ReadFrom` let N0 = allocstamp()
-//@   after `s.logger.Printf("Error parsing DHCPv4 request: %v", err)` assert[undecodable-not-dispatched] spawned() == S0 && !dhcpv4.SpecAcceptV4(string(rbuf[:n]))
-//@   after `s.logger.Printf("Not a UDP connection? Peer is %s", peer)` assert[non-udp-not-dispatched] spawned() == S0
-//@   after `go:` assert[dispatched-once] spawned() == S0 + 1 && dhcpv4.SpecAcceptV4(string(rbuf[:n])) && m != nil && fresh(m)
-//@   after `go:` assert[message-of-this-datagram] string(m.TransactionID[:]) == string(rbuf[:n])[4:8] && int(m.OpCode) == int(rbuf[0])
-//@   after `go:` assert[own-message] ref(m) >= N0 && ref(m.Options) >= N0
-//@   after `go:` assert[peer-bcast] peer.(*net.UDPAddr).IP == nil ==> fresh(upeer) && ref(upeer) >= N0 && upeer.Port == peer.(*net.UDPAddr).Port
-//@   after `go:` assert[peer] upeer != nil && typeIs(peer, *net.UDPAddr) && upeer.Port == peer.(*net.UDPAddr).Port
+//@   after `s.logger.Printf("Error parsing DHCPv4 request: %v", err)` claim[undecodable-not-dispatched] spawned() == S0 && !dhcpv4.SpecAcceptV4(string(rbuf[:n]))
+//@   after `s.logger.Printf("Not a UDP connection? Peer is %s", peer)` claim[non-udp-not-dispatched] spawned() == S0
+//@   after `go:` claim[dispatched-once] spawned() == S0 + 1 && dhcpv4.SpecAcceptV4(string(rbuf[:n])) && m != nil && fresh(m)
+//@   after `go:` claim[message-of-this-datagram] string(m.TransactionID[:]) == string(rbuf[:n])[4:8] && int(m.OpCode) == int(rbuf[0])
+//@   after `go:` claim[own-message] ref(m) >= N0 && ref(m.Options) >= N0
+//@   after `go:` claim[peer-bcast] peer.(*net.UDPAddr).IP == nil ==> fresh(upeer) && ref(upeer) >= N0 && upeer.Port == peer.(*net.UDPAddr).Port
+//@   after `go:` claim[peer] upeer != nil && typeIs(peer, *net.UDPAddr) && upeer.Port == peer.(*net.UDPAddr).Port
 
 var _ = dhcpv4.SpecAcceptV4
